@@ -78,6 +78,11 @@ static unsigned* g_ooo = 0;
 // ---------------------------------------------------------------- level c: legacy follower
 struct SC { TCPStreamFollower f; Model m; std::vector<uint8_t> delivered; };
 
+// ---------------------------------------------------------------- level d: legacy follower, BOTH directions of one connection interleaved
+struct Seg2 { int dir; Seg g; };
+struct SD { TCPStreamFollower f; Model mc, ms; std::vector<uint8_t> dc, ds; };
+static const uint32_t PAIRS[4][2] = {{1000u, 500000u}, {500000u, 1000u}, {0xfffffffeu, 0x10000000u}, {0x10000000u, 0xfffffffeu}};
+
 static std::vector<uint32_t> isns(bool thorough) {
     std::vector<uint32_t> v = {0u, 1u, 0x7fffffffu, 0x80000000u, 0x80000001u, 1000u};
     for (int j = 0; j <= L + 2; ++j) v.push_back(0u - (uint32_t)j);
@@ -199,6 +204,74 @@ static void run_level(char level, uint32_t isn, const std::string* rp = 0, std::
     R.count("configurations");
 }
 
+static void run_both(int pair, const std::string* rp = 0, std::string* rerr = 0) {
+    const uint32_t cisn = PAIRS[pair][0], sisn = PAIRS[pair][1];
+    const int LD = A.thorough() ? 5 : 4;
+    std::string ctx = std::string("level=d L=") + str(L) + " pair=" + str(pair);
+    Explorer<SD, Seg2> ex;
+    for (int dir = 0; dir < 2; ++dir) {
+        for (int len = 1; len <= LD; ++len) for (int off = 0; off + len <= LD; ++off) ex.alphabet.push_back(Seg2{dir, Seg{off, len}});
+        ex.alphabet.push_back(Seg2{dir, Seg{-1, 2}});
+    }
+    ex.context = ctx;
+    ex.op_str = [](const Seg2& e) { return std::string(e.dir ? "s" : "c") + seg_str(e.g); };
+    auto feed = [](SD& s, IP& pkt) {
+        std::vector<uint8_t>* dc = &s.dc; std::vector<uint8_t>* ds = &s.ds;
+        auto data_fun = [dc, ds](TCPStream& st) {
+            dc->insert(dc->end(), st.client_payload().begin(), st.client_payload().end()); st.client_payload().clear();
+            ds->insert(ds->end(), st.server_payload().begin(), st.server_payload().end()); st.server_payload().clear();
+        };
+        auto end_fun = [](TCPStream&) {};
+        s.f.callback(pkt, data_fun, end_fun);
+    };
+    ex.init = [cisn, sisn, feed]() {
+        SD s;
+        IP syn = IP("10.0.0.2", "10.0.0.1") / TCP(80, 1025);
+        syn.rfind_pdu<TCP>().flags(TCP::SYN); syn.rfind_pdu<TCP>().seq(cisn - 1);
+        feed(s, syn);
+        IP synack = IP("10.0.0.1", "10.0.0.2") / TCP(1025, 80);
+        synack.rfind_pdu<TCP>().flags(TCP::SYN | TCP::ACK); synack.rfind_pdu<TCP>().seq(sisn - 1); synack.rfind_pdu<TCP>().ack_seq(cisn);
+        feed(s, synack);
+        return s;
+    };
+    auto side = [](uint32_t isn, uint32_t seq, const TCPStream::fragments_type& fr) {
+        std::vector<std::pair<int32_t, size_t> > v;
+        for (auto& kv : fr) v.push_back(std::make_pair((int32_t)(kv.first - isn), (size_t)kv.second->payload_size()));
+        std::sort(v.begin(), v.end());
+        std::string o = str(seq - isn) + "|";
+        for (auto& p : v) o += str(p.first) + ":" + str(p.second) + ";";
+        return o;
+    };
+    ex.canon = [cisn, sisn, side](const SD& s) {
+        if (s.f.sessions_.empty()) return std::string("<no session>");
+        const TCPStream& st = s.f.sessions_.begin()->second;
+        return side(cisn, st.client_seq_, st.client_frags_) + "#" + side(sisn, st.server_seq_, st.server_frags_) + "#" + str(s.mc.mask) + "," + str(s.ms.mask) + "," +
+               str(s.dc.size()) + "," + str(s.ds.size());
+    };
+    ex.step = [cisn, sisn, feed](SD& s, const Seg2& e) -> std::string {
+        IP pkt = e.dir ? IP("10.0.0.1", "10.0.0.2") / TCP(1025, 80) / RawPDU(seg_bytes(e.g)) : IP("10.0.0.2", "10.0.0.1") / TCP(80, 1025) / RawPDU(seg_bytes(e.g));
+        pkt.rfind_pdu<TCP>().seq((e.dir ? sisn : cisn) + (uint32_t)e.g.off);
+        pkt.rfind_pdu<TCP>().flags(TCP::ACK);
+        feed(s, pkt);
+        (e.dir ? s.ms : s.mc).add(e.g);
+        if (s.f.sessions_.size() != 1) return "reassembly:legacy2:session-lost|session count " + str(s.f.sessions_.size());
+        const TCPStream& st = s.f.sessions_.begin()->second;
+        std::vector<std::pair<uint32_t, std::vector<uint8_t> > > cc, cs;
+        for (auto& kv : st.client_frags_) cc.push_back(std::make_pair(kv.first, kv.second->payload()));
+        for (auto& kv : st.server_frags_) cs.push_back(std::make_pair(kv.first, kv.second->payload()));
+        std::string r = check_common(cisn, s.mc, s.dc, st.client_seq_, cc, -1, "legacy2:client");
+        if (r.empty()) r = check_common(sisn, s.ms, s.ds, st.server_seq_, cs, -1, "legacy2:server");
+        return r;
+    };
+    ex.nontrivial = [](const SD& s) { return !s.f.sessions_.empty() && !s.f.sessions_.begin()->second.client_frags_.empty() && !s.f.sessions_.begin()->second.server_frags_.empty(); };
+    bool ok = true;
+    if (rp) { *rerr = ex.replay(*rp); return; }
+    ok = ex.run();
+    if (ok) R.count("configurations_to_fixpoint");
+    R.count("configurations");
+    R.count("two_direction_configurations");
+}
+
 struct Cfg { char level; uint32_t isn; };
 static std::vector<Cfg> configs() {
     std::vector<Cfg> c;
@@ -210,12 +283,13 @@ static std::vector<Cfg> configs() {
 int main(int argc, char** argv) {
     for (int i = 1; i + 1 < argc; ++i) if (std::string(argv[i]) == "--tier" && std::string(argv[i + 1]) == "thorough") L = 8;
     if (getenv("C06_L")) L = atoi(getenv("C06_L"));
-    int nq = 3 * (6 + 6 + 3), nt = 3 * (6 + 8 + 3);
-    if (getenv("C06_L")) nq = nt = 3 * (6 + L + 3);
+    int nq = 3 * (6 + 6 + 3) + 4, nt = 3 * (6 + 8 + 3) + 4;      // + 4 two-direction configurations of the legacy follower
+    if (getenv("C06_L")) nq = nt = 3 * (6 + L + 3) + 4;
     return run_main(argc, argv, nq, nt,
         [](int job) {
             auto c = configs();
             if (job < (int)c.size()) run_level(c[job].level, c[job].isn);
+            else if (job < (int)c.size() + 4) run_both(job - (int)c.size());
             R.maxv("completed_bound_L", L);
         },
         [](const std::string& kase) -> int {
@@ -223,7 +297,8 @@ int main(int argc, char** argv) {
             L = atoi(kv["L"].c_str());
             uint32_t isn = (uint32_t)strtoul(kv["isn"].c_str(), 0, 10);
             std::string err, ops = kv["ops"];
-            run_level(kv["level"][0], isn, &ops, &err);
+            if (kv["level"] == "d") { A.tier = L > 6 ? "thorough" : "quick"; run_both(atoi(kv["pair"].c_str()), &ops, &err); }
+            else run_level(kv["level"][0], isn, &ops, &err);
             if (!err.empty()) { printf("violation reproduced: %s\n", err.c_str()); return 1; }
             printf("history replayed, all invariants hold\n");
             return 0;
